@@ -259,7 +259,7 @@ func checkC10(c CaseC10, x *hx.Ctx) (fail *hx.Failure) {
 				// an object that is open right now is submitted once more, however long ago it was processed
 				var open []*c10Desc
 				for _, sd := range seen {
-					if sd.status == 1 && sd.abs.Type != 0x13 && sd.abs.HasPTS {
+					if sd.status == 1 && sd.abs.HasPTS { // incl. a pending breakaway, which Open() hides
 						open = append(open, sd)
 					}
 				}
